@@ -266,7 +266,16 @@ func (r *revocationJob) OnFailure(err error) {
 
 		le, loadErr := r.m.loadEntry(r.nsCtx, r.leaseID)
 		if loadErr != nil {
-			r.m.logger.Warn("failed to mark lease as irrevocable - failed to load", "lease_id", r.leaseID, "err", loadErr)
+			r.m.logger.Warn("failed to mark lease as irrevocable - failed to load", "lease_id", r.leaseID, "err", loadErr, "next_attempt", newTimer)
+
+			// The lease can be neither revoked nor marked as irrevocable
+			// right now. Keep its timer armed so that a later attempt does
+			// one or the other; otherwise nothing would try again.
+			pending.revokesAttempted = min(pending.revokesAttempted, maxRevokeAttempts-1)
+			pending.timer.Reset(newTimer)
+			r.m.pendingLock.Lock()
+			r.m.pending.Store(r.leaseID, pending)
+			r.m.pendingLock.Unlock()
 			return
 		}
 		if le == nil {
